@@ -29,6 +29,8 @@ def load(seeded: bool):
     if seeded:
         for d in sorted((HERE / "seeded").glob("*/")):
             meta = json.loads((d / "meta.json").read_text())
+            if meta.get("obsolete"):
+                continue  # made harmless by a later repair of the repository (reason in meta.json)
             items.append((d.name, d / "patch.diff", meta.get("expect_checks") or [meta["property"]], meta.get("needs", "")))
     return items
 
